@@ -378,6 +378,11 @@ def ok_exprs():
     E["call_returning_list"] = (lambda: A.call("ident", V("xs")), "C14 C05")
     E["rest_call"] = (lambda: A.Call(V("fr"), [(I(0), False), (V("xs"), True)]), "C14 C13")
     E["method"] = (lambda: A.Call(A.Prop(V("ob"), "get", False), []), "C14")
+    E["type_of_property"] = (lambda: A.Call(A.Prop(A.Prop(V("o"), "a", False), "type", True), []), "C16 C12 C14")
+    E["type_of_nested_property"] = (lambda: A.Call(A.Prop(A.Prop(A.Prop(V("ob"), "inner", False), "v", False), "type", True), []), "C16 C12")
+    E["len_of_property"] = (lambda: A.Call(A.Prop(A.Prop(A.obj(("t", S("abc"))), "t", False), "len", True), []), "C15 C12")
+    E["type_of_element"] = (lambda: A.Call(A.Prop(A.Index(_lst(V("o"), V("s")), I(1)), "type", True), []), "C16 C11")
+    E["type_of_method_result"] = (lambda: A.Call(A.Prop(A.Call(A.Prop(V("ob"), "get", False), []), "type", True), []), "C16 C14")
     E["method_two_dots"] = (lambda: A.Call(A.Prop(A.Prop(V("ob"), "inner", False), "get", False), []), "C14 C12")
     E["short_slice"] = (lambda: A.RangeIndex(V("xs"), I(0), I(1)), "C11 C05")
     E["short_string_slice"] = (lambda: A.RangeIndex(V("s"), I(0), I(1)), "C11 C15")
